@@ -97,7 +97,7 @@ def run_unit(tpath, repo_root, seed, build_dir=BUILD, tag='', canary=None, expan
         for ex in ub.extracts:
             if ex['kind'] != 'fn' and not any(t['rule'] == 'E9' for t in ex['transformations']):
                 continue
-            if not ex['clauses'] and not ex.get('expect_queries', True):
+            if ex.get('stub_of'):
                 continue
             suffix = '::' + ex['alias']
             if not any(n.endswith(suffix) or n.split('::', 1)[-1] == ex['alias'] for n in names):
@@ -130,7 +130,7 @@ def obligations_for(ub, prop, r):
         failed_owners.setdefault(m['owner'], []).append(m)
     obs = []
     for cl in ub.clauses:
-        if prop not in cl.props:
+        if prop not in cl.props or cl.assumed:
             continue
         if cl.kind in ('requires', 'recommends', 'decreases'):
             # requires are assumptions of this function (obligations at call sites, counted there); decreases: termination
@@ -140,7 +140,7 @@ def obligations_for(ub, prop, r):
                     'discharged': cl.id not in failed_ids, 'backend': 'verus-z3'})
     fnames = {f['function']: f for f in r['functions']}
     for ex in ub.extracts:
-        if prop not in ex['props']:
+        if prop not in ex['props'] or ex.get('stub_of'):
             continue
         if ex['kind'] != 'fn' and not any(t['rule'] == 'E9' for t in ex['transformations']):
             continue
@@ -153,7 +153,7 @@ def obligations_for(ub, prop, r):
                     'discharged': (f is not None) and not implicit_fail, 'backend': 'verus-z3',
                     'solver_ms': f['ms'] if f else None})
     # prelude proof functions (lemmas)
-    ex_suffixes = ['::' + ex['alias'] for ex in ub.extracts]
+    ex_suffixes = ['::' + ex['alias'] for ex in ub.extracts if ex['kind'] == 'fn' or ex.get('stub_of')]
     for n, f in fnames.items():
         if any(n.endswith(s) for s in ex_suffixes):
             continue
@@ -270,7 +270,7 @@ def check_property(prop, tier, seed, replay=None):
             continue
         trusted.extend(scan_trust(ub))
         for ex in ub.extracts:
-            if prop in ex['props'] and (ex['kind'] == 'fn' or any(t['rule'] == 'E9' for t in ex['transformations'])):
+            if prop in ex['props'] and not ex.get('stub_of') and (ex['kind'] == 'fn' or any(t['rule'] == 'E9' for t in ex['transformations'])):
                 functions.append({'unit': n, 'function': ex['alias'], 'file': ex['file'], 'lines': [ex['src_line_start'], ex['src_line_end']],
                                   'sha256': ex['sha256'], 'woven_clauses': len(ex['clauses'])})
         transformations.extend({'unit': n, **t} for t in ub.transformations)
@@ -403,7 +403,7 @@ def thorough(prop, units, results, seed):
         if ub is None:
             continue
         for ex in ub.extracts:
-            if prop in ex['props'] and ex['kind'] == 'fn' and canary_line(ub, ex['alias']):
+            if prop in ex['props'] and ex['kind'] == 'fn' and not ex.get('stub_of') and canary_line(ub, ex['alias']):
                 jobs.append((n, u['path'], ex['alias']))
     with cf.ThreadPoolExecutor(max_workers=12) as ex:
         futs = {ex.submit(run_unit, p, REPO, seed, tag='_canary_' + re.sub(r'\W+', '_', a), canary=a): (n, a) for n, p, a in jobs}
